@@ -22,7 +22,9 @@ sys.path.insert(0, os.path.join(os.path.dirname(os.path.dirname(os.path.abspath(
 OPS = {"term": {}, "codes": {}, "run": {}}
 
 BUDGET = 10000
-SPIN = 0x280B  # first frame of the "dots" spinner
+# Status: (spinner name, first frame) -- the clock of the test console stands still, so frame 0 is shown
+SPINNERS = [("dots", [0x280B]), ("line", [0x2D]), ("star", [0x2736]), ("simpleDots", [0x2E, 32, 32]),
+            ("dots12", [0x2880, 0x2800])]
 
 
 # ------------------------------------------------------------------ generators
@@ -63,14 +65,14 @@ def gen_history(rng, kind, mode, faulty, maxops=40):
     progress = 1 if kind == 1 else 0
     transient = 1 if kind == 2 else rng.randint(0, 1)
     ovf = 1 if kind == 2 else rng.choice([0, 1, 2])
-    lw = W - 2 if kind == 2 else W        # Status puts the spinner and a blank in front
+    lw = W - 4 if kind == 2 else W        # Status puts the spinner (<= 3 cells) and a blank in front
     # excluded input classes (notes/C10.md): `visible` overflow and Progress have no overflow
     # handling (documented upstream); a transient display must end with a frame shorter than the
     # screen (D23); keep every frame below the bound so that a fault at any point is covered too
     # -- both classes are generated again as soon as the code under test repairs them (T3 facts)
     F = facts()
     cap = H + 3
-    if (kind == 0 and ovf == 2) or kind == 1:
+    if (kind == 0 and ovf == 2) or (kind == 1 and not F["live_render_crops_to_page"]):
         cap = H
     if transient and not (kind != 1 and ovf != 2 and F["live_transient_final_room"]
                           and F["live_stop_visible_unless_transient"]):
@@ -104,7 +106,9 @@ def gen_history(rng, kind, mode, faulty, maxops=40):
                 base[:] = f
                 for t in tasks:
                     t[1] = 0
-            return [3, f, 1 if kind == 2 else rng.randint(0, 1)]
+            if kind == 2:     # Status.update(status=..., spinner=...?) always refreshes
+                return [3, f, 1] + ([rng.randrange(len(SPINNERS))] if rng.random() < 0.3 else [])
+            return [3, f, rng.randint(0, 1)]
         if r < 0.85:
             return [4]
         if r < 0.88:
@@ -198,7 +202,8 @@ def facts():
     coq/gen is shared between concurrent checks, the driver is not"""
     if not _FACTS:
         names = ["progress_start_guarded", "live_stop_visible_unless_transient", "live_stop_restores_overflow",
-                 "live_stop_resets_shape", "progress_stop_resets_shape", "live_transient_final_room"]
+                 "live_stop_resets_shape", "progress_stop_resets_shape", "live_transient_final_room",
+                 "live_render_crops_to_page"]
         vals = None
         try:
             import common
@@ -259,6 +264,15 @@ def known_progress_tall(op, arg):
     return cfg[7] == 1 and any(len(f) > cfg[4] for f in _frames_of(arg))
 
 
+def known_progress_transient_full(op, arg):
+    """transient Progress whose tallest frame fills the page (>= H rows): LiveRender does not know that
+    the display is transient, the final new line scrolls the first row out of reach of restore_cursor"""
+    if op != "run" or len(arg) != 6:
+        return False
+    cfg = arg[0]
+    return cfg[7] == 1 and bool(cfg[1]) and any(len(f) >= cfg[4] for f in _frames_of(arg))
+
+
 def with_fault(case, which, k):
     c = [list(case[0])] + case[1:]
     c[0][5] = [k] if which == "render" else []
@@ -307,16 +321,17 @@ def count_calls(case):
 
 
 # ------------------------------------------------------------------ model-side argument mapping
-def status_lines(f, W):
+def status_lines(f, W, glyph):
     """what Status' grid (spinner, blank, status) turns a frame into; hand-written, checked by the
     byte comparison"""
     from_w = _cell_len
     w = max([from_w(l) for l in f] + [1])
+    gw = from_w(glyph)
     n = max(1, len(f))
     out = []
     for i in range(n):
         l = list(f[i]) if i < len(f) else []
-        out.append([SPIN if i == 0 else 32, 32] + l + [32] * (w - from_w(l)))
+        out.append((list(glyph) if i == 0 else [32] * gw) + [32] + l + [32] * (w - from_w(l)))
     return out
 
 
@@ -352,10 +367,17 @@ def model_case(op, arg):
         return op, arg
     cfg, f0, mode, pre, ops, tags = arg
     kind, W = cfg[7], cfg[3]
-    fx = (lambda f: status_lines(f, W)) if kind == 2 else (lambda f: f)
+    glyph = [SPINNERS[0][1]]
+    raw = [f0]           # Status: the status in force (a spinner change re-lays it out)
+
+    def fx(f):
+        return status_lines(f, W, glyph[0]) if kind == 2 else f
     mops = []
     for o in ops:
         if o[0] == 3:
+            if kind == 2 and len(o) > 3:
+                glyph[0] = SPINNERS[o[3]][1]
+            raw[0] = o[1]
             mops.append([3, fx(o[1]), o[2]])
         elif o[0] == 7:
             mops.append([3, o[2], 1])
@@ -364,9 +386,10 @@ def model_case(op, arg):
         elif o[0] == 9:
             mops.append([3, o[3], 0])
         elif o[0] == 10:
-            mops.append([0, []] if False else [3, None, 0])
+            mops.append([3, None, 0])
         else:
             mops.append(o)
+    glyph[0] = SPINNERS[0][1]
     # advance: the frame does not change -- replay the frame in force
     cur = f0
     fixed = []
@@ -376,7 +399,7 @@ def model_case(op, arg):
         if m[0] == 3:
             cur = m[1]
         fixed.append(m)
-    return op, [cfg[:7], fx(f0), mode, pre, fixed]
+    return op, [cfg[:8], fx(f0), mode, pre, fixed]
 
 
 # ------------------------------------------------------------------ implementation side
@@ -504,7 +527,10 @@ def impl_run(arg):
             if kind == 0:
                 disp.update(Lines(o[1], fault), refresh=bool(o[2]))
             elif kind == 2:
-                disp.update(status=Lines(o[1], fault))
+                if len(o) > 3:
+                    disp.update(status=Lines(o[1], fault), spinner=SPINNERS[o[3]][0])
+                else:
+                    disp.update(status=Lines(o[1], fault))
             else:
                 for t in tids:
                     disp.update(t, visible=False)
